@@ -6,6 +6,7 @@ package props
 
 import (
 	"fmt"
+	"golang.org/x/text/language"
 	"io"
 	"math/rand/v2"
 	"regexp"
@@ -646,6 +647,13 @@ func c02access(x *c02call, val any) {
 		x.acc("NumClasses/Glyphs", func() { v.NumClasses(); v.Glyphs() })
 	case *name.Info:
 		x.acc("Encode", func() { v.Encode(1) })
+		// what sfnt.Read does with the decoded tables
+		x.acc("Tables.Choose", func() {
+			v.Windows.Choose(language.AmericanEnglish)
+			v.Mac.Choose(language.AmericanEnglish)
+			v.Windows.Choose()
+			v.Mac.Choose(language.German, language.Japanese)
+		})
 	case *head.Info:
 		x.acc("Encode", func() { v.Encode() })
 	case *hmtx.Info:
